@@ -118,6 +118,15 @@ class Runner(object):
         api._store_var = self.store
         self.store_kind = kind
 
+    def set_store_api(self, internal_dir, data_dir, cache_objects):
+        """through the public API: dds.set_store('local', ...)"""
+        import dds._api as api
+        from . import ws as _ws
+        self.dds.set_store("local", internal_dir=internal_dir, data_dir=data_dir, cache_objects=cache_objects)
+        self.store = _ws.recording_store(api._store_var)
+        api._store_var = self.store
+        self.store_kind = "local_api"
+
     def load_world(self, wsdir, modname, extmod=None, accept=None):
         _ensure_paths(wsdir)
         for k in list(sys.modules):
@@ -225,6 +234,9 @@ def main():
             elif cmd == "store":
                 r.set_store(rq["kind"], rq.get("internal_dir"), rq.get("data_dir"), rq.get("cache"))
                 out = {"ok": True}
+            elif cmd == "store_api":
+                r.set_store_api(rq.get("internal_dir"), rq.get("data_dir"), rq.get("cache_objects"))
+                out = {"ok": True, "store": repr(r.store.inner)}
             elif cmd == "world":
                 r.load_world(rq["dir"], rq["module"], rq.get("extmod"), rq.get("accept"))
                 out = {"ok": True}
